@@ -208,8 +208,13 @@ func genMsg(g *lp.Gen, client bool) msg {
 				n = g.PickInt(255, 256, 4096)
 			}
 			sz := fmt.Sprintf(g.Pick("%x", "%X", "0%x"), n)
-			if g.Chance(1, 40) {
-				sz = g.Pick("zz", "-1", "7fffffffffffffffff", "4000000000000000", "3fffffffffffffff", "", "0x1", "1g")
+			if g.Chance(1, 25) {
+				// malformed and boundary sizes, with the chunk's data following: around 2^62 (the largest value
+				// ParseInt(.., 16, 63) admits is 2^62-1) and around 2^63 / 2^64 (index arithmetic overflows)
+				sz = g.Pick("zz", "-1", "", "0x1", "1g", "1 zz", "12 3",
+					"3fffffffffffffff", "4000000000000000", "7fffffffffffffff", "8000000000000000", "ffffffffffffffff",
+					"3FFFFFFFFFFFFFFF", "7FFFFFFFFFFFFFFF", "FFFFFFFFFFFFFFFF", "03fffffffffffffff", "07fffffffffffffff",
+					"10000000000000000", "7fffffffffffffffff", "7ffffffffffffff0", "7ffffffffffffffe")
 			}
 			m.add("chunksize", sz)
 			m.add("chunkext", g.Pick("", "", ";ext=1", " ;a", ";abc", " ", ";a=\"b c\""))
